@@ -23,6 +23,24 @@ pub fn c05_find_in_products() {
     cover!(i == 4887, "the last entry found");
 }
 
+/// H1' — history: searches after arbitrary earlier searches still return an in-range index without panicking, and the
+/// two keys whose rows are known from first principles (the smallest product 2*2*2*2*3 = 48 in row 0, the largest
+/// 41^4*37 = 104553157 in the last row) are still found — whatever was searched before (hints, memos, truncated keys)
+#[cfg_attr(kani, kani::proof)]
+#[cfg_attr(kani, kani::unwind(14))]
+#[cfg_attr(kani, kani::solver(kissat))]
+pub fn c05_find_history() {
+    let k0 = sym::usize();
+    let k1 = sym::usize();
+    let _ = Five::find_in_products(k0);
+    let i = Five::find_in_products(k1);
+    check!(i < 4888, "second search returns an index inside the table");
+    check!(Five::find_in_products(104_553_157) == 4887, "the largest product is still found in the last row");
+    check!(Five::find_in_products(48) == 0, "the smallest product is still found in row 0");
+    cover!(k0 == 48 && k1 < 48, "first search hits the first row, second key is below every product");
+    cover!(k0 > 0xFFFF_FFFF && (k0 & 0xFFFF_FFFF) == 104_553_157, "first key is the largest product plus a multiple of 2^32");
+}
+
 fn five_slots() -> [u32; 5] {
     [any_card_or_blank(), any_card_or_blank(), any_card_or_blank(), any_card_or_blank(), any_card_or_blank()]
 }
